@@ -213,7 +213,8 @@ def oracle_run_moments(args):
     return not problems, dict(info, problems=problems[:3]), {"problems": []}, "; ".join(problems[:2]) or "ok"
 
 
-ORACLES = {"run_moments": oracle_run_moments, "hermitian": oracle_hermitian, "hop_shift": oracle_hop_shift, "collapse": oracle_collapse,
+from .. import runcommon as rc
+ORACLES = {"whole_run": rc.oracle_whole_run, "run_moments": oracle_run_moments, "hermitian": oracle_hermitian, "hop_shift": oracle_hop_shift, "collapse": oracle_collapse,
            "integrators_agree": oracle_integrators_agree, "initial_zero": oracle_initial_zero}
 
 
@@ -275,6 +276,12 @@ def run(ctx):
         c = _case(rng)
         mode = ["exp", "rk4"][i % 2]
         which = ["R", "P"][(i // 2) % 2]
+        a_ = {"case": c, "mode": mode, "which": which}
+        ok_, obs_, req_, text_ = oracle_hermitian(a_)
+        if "exception" in obs_:
+            ctx.case(None)
+            ctx.oracle_fail("moments-raised:%s:%s" % (which, mode), "hermitian", a_, obs_, req_, text_)
+            continue
         t, H, cap = impl_moments(c, mode, which)
         N = c["N"]
         x = int(rng.integers(0, c["n"]))
